@@ -25,3 +25,8 @@ package util
 //@   props C02
 //@   trusted
 //@   noeffect
+
+//@ fn FormatTime(val) (r)
+//@   props C08
+//@   trusted
+//@   pure
